@@ -131,6 +131,8 @@ PROPS = {
     },
     "C17": {
         "safety": True,
+        # the checked (debug-assertion) build view of the payload decryption paths
+        "thorough_units": [dict(gen("C17", props=["C17_debug.rs"]), view="debug", tags=["C17D"], needs_witness=True)],
         "units": [leaf("overflow", "index out of bounds", "panic", "unwrap", "out of range", "attempt to"), gen("C17", props=["lib_bytes.rs", "C17.rs"])],
         "trusted_base": TB_ALGEBRA + ["A-TIME (see C10)", "L-SERDE: serde / serde_bare / serde_json decoders and the curve crates' parsers are not verified"],
         "hypotheses": [],
